@@ -21,7 +21,7 @@ mutual
 theorem wf_of_gateOK : (g : GateTerm P) → gateOK g = true → Spec.WF g
   | .C g, h => by
     rw [Spec.WF]
-    exact wf_of_gateOK g (by simpa [gateOK] using h)
+    exact wf_of_gateOK g (gateOK_of_isNamedC g (by simpa [gateOK] using h))
   | .Kron g0 g1, h => by
     rw [Spec.WF]
     simp only [gateOK, Bool.and_eq_true] at h
